@@ -221,6 +221,9 @@ func (m *Machine) Reverse(this Value, _ []Value) Value {
 			m.Put(o, upperP, lowerValue, true)
 		}
 	}
+	if m.ReverseReturnsThis {
+		return this
+	}
 	return ObjV(o)
 }
 
